@@ -517,7 +517,7 @@ def stalled_connect_sweep(ctx: Ctx, prop: str) -> None:
                                 faults.append({"kind": "cmd", "point": {"t": t0 + t_final + 0.1}, "posclass": "stalled"})
                             elif final != "none":
                                 faults.append({"kind": final, "point": {"t": t0 + t_final}, "posclass": "stalled"})
-                            spec = S(framing=framing, device=dev, program=[["connect"], ["sleep", 20.0], ["disconnect"]], faults=faults)
+                            spec = S(framing=framing, login=False, password=None, device=dev, program=[["connect"], ["sleep", 20.0], ["disconnect"]], faults=faults)
                             record(ctx, prop, run_spec(spec), "stalled-connect")
 
 
